@@ -124,6 +124,67 @@ def crc_line(crc: int) -> bool:
     return len(raw) == 3 and raw[0] * 65536 + raw[1] * 256 + raw[2] == crc
 
 
+# ------------------------------------------------------------------------------------ O10.2b CRC line at its call site
+import pgpy.types as _T
+
+
+class _B64Rec:
+    """stands in for the base64 module inside pgpy.types: records what is handed to b64encode (base64 itself is C code)"""
+    calls = []
+
+    @staticmethod
+    def b64encode(data):
+        _B64Rec.calls.append(bytes(data))
+        return b'QUJD'
+
+    @staticmethod
+    def b64decode(data):
+        import base64
+        return base64.b64decode(data)
+
+
+class _Blob(Armorable):
+    """an armorable object with a fixed binary export and a CRC chosen by the harness"""
+    crcval = 0
+    magic = 'MESSAGE'
+
+    def __bytearray__(self):
+        return bytearray(b'payload')
+
+    def __bytes__(self):
+        return b'payload'
+
+    def parse(self, packet):
+        pass
+
+    @staticmethod
+    def crc24(data):
+        return _Blob.crcval
+
+
+@ob('O10.2b', 'the armored text built by Armorable.__str__ hands base64 exactly the binary export, then exactly three big-endian CRC octets '
+              '(leading zero octets kept), for every 24-bit CRC value', 'crc in [0, 2^24) symbolic (crc24 replaced by a symbolic value; base64 replaced by a recorder)',
+    cond_timeout={'q': 120, 't': 300})
+def crc_line_callsite(crc: int) -> bool:
+    """
+    pre: 0 <= crc < 2**24
+    post: _
+    """
+    saved = _T.base64
+    _T.base64 = _B64Rec
+    _B64Rec.calls = []
+    _Blob.crcval = crc
+    try:
+        text = str(_Blob())
+    finally:
+        _T.base64 = saved
+    calls = _B64Rec.calls
+    if len(calls) != 2 or calls[0] != b'payload':
+        return False
+    c = calls[1]
+    return len(c) == 3 and c[0] * 65536 + c[1] * 256 + c[2] == crc and '\n=QUJD\n-----END PGP MESSAGE-----' in text
+
+
 # ------------------------------------------------------------------------------------ O10.3 wrap arithmetic
 def wrap_constants():
     """read the slice width and the range step of the wrap expression from Armorable.__str__'s current source"""
@@ -216,19 +277,21 @@ _fixture_bodies()
 class _Unarmor:
     magic = None
     body = b''
+    cleartext = None
 
 
 def _stub_unarmor(text):
-    return {'magic': _Unarmor.magic, 'headers': None, 'body': bytearray(_Unarmor.body), 'crc': None, 'hashes': None, 'cleartext': 'x'}
+    return {'magic': _Unarmor.magic, 'headers': None, 'body': bytearray(_Unarmor.body), 'crc': None, 'hashes': None,
+            'cleartext': _Unarmor.cleartext}
 
 
 Armorable.ascii_unarmor = staticmethod(_stub_unarmor)        # after the fixtures above were loaded with the real one
 
 
 @ob('O10.4', 'block labels: each object kind emits its own label, and parsing rejects every label of another kind',
-    'object kind in {public key, private key, message, detached signature} x presented label symbolic over the 7-element label set '
-    '(armor text splitting stubbed)', cond_timeout={'q': 240, 't': 600})
-def labels(kind: int, li: int) -> bool:
+    'object kind in {public key, private key, message, detached signature, cleartext-signed message} x presented label symbolic over the 7-element label set '
+    'x cleartext part present/absent (armor text splitting stubbed)', cond_timeout={'q': 240, 't': 600})
+def labels(kind: int, li: int, has_ct: bool) -> bool:
     """
     pre: 0 <= kind < 4
     pre: 0 <= li < 7
@@ -243,7 +306,12 @@ def labels(kind: int, li: int) -> bool:
         return False
     label = LABELS[li]
     _Unarmor.magic = label
+    _Unarmor.cleartext = 'text' if has_ct else None
     _Unarmor.body = (fx['pub'], fx['sec'], fx['msg'], fx['sig'])[kind]
+    if kind == 2 and label == 'SIGNATURE':
+        # a SIGNATURE block handed to the message loader: only a cleartext-signed message (cleartext part present, signature packets)
+        # is a message; a bare detached signature block is of the wrong kind and must be rejected
+        _Unarmor.body = fx['sig']
     cls = (PGPKey, PGPKey, PGPMessage, PGPSignature)[kind]
     o = cls()
     try:
@@ -253,6 +321,8 @@ def labels(kind: int, li: int) -> bool:
         accepted = False
     compatible = {0: ('PUBLIC KEY BLOCK', 'PRIVATE KEY BLOCK'), 1: ('PUBLIC KEY BLOCK', 'PRIVATE KEY BLOCK'),
                   2: ('MESSAGE', 'SIGNATURE'), 3: ('SIGNATURE',)}[kind]
+    if kind == 2 and label == 'SIGNATURE':
+        return accepted == has_ct
     if label == own and not accepted:
         return False
     if label not in compatible and accepted:
@@ -262,4 +332,4 @@ def labels(kind: int, li: int) -> bool:
 
 SANITY = ['replay_crc(0, 0)', 'replay_crc(0xB704CE, 0x31)', 'replay_crc(0xFFFFFF, 0xFF)', 
           'crc_line(0)', 'crc_line(255)', 'crc_line(2**24 - 1)', 'crc_line(65536)'] + ['replay_wrap(%d)' % n for n in (0, 1, 63, 64, 65, 4000)] + \
-         ['labels(%d, %d)' % (k, l) for k in range(4) for l in range(7)]
+         ['labels(%d, %d, %s)' % (k, l, c) for k in range(4) for l in range(7) for c in (True, False)] + ['crc_line_callsite(0)', 'crc_line_callsite(255)', 'crc_line_callsite(0x010203)']
